@@ -5,7 +5,8 @@
 //!
 //! Scenario (JSON): {"name":..,"workers":1..2,"shutdown_s":1..2,"conns":N,"stop":"graceful"|"forced",
 //!   "release":[{"c":0,"at":"before_stop"|"never"|<ms after stop>}], "second_stop":bool, "drop_future":bool,
-//!   "pause_first":bool, "late_connect":bool, "race_conns":N, "stop_after_done":bool, "faults_first":N, "stall_after_stop_ms":N, "plain_tokio":bool, "system_exit":bool, "stop_gap_ms":N, "busy_ms":N}
+//!   "pause_first":bool, "late_connect":bool, "race_conns":N, "stop_after_done":bool, "faults_first":N, "stall_after_stop_ms":N, "plain_tokio":bool, "system_exit":bool, "stop_gap_ms":N, "busy_ms":N,
+//!   "call_busy":{"c":k,"ms":N}, "stop_in_call_ms":N}
 //! accept_delay_ms (solo scenarios only): while set, the accept thread is held that long whenever it logs "resume accepting
 //!   connections" (tracing subscriber); resume_then_stop: resume() and stop() are issued back to back
 //! busy_ms: every connection handler blocks its worker thread for N ms right after it started (no yield)
@@ -146,6 +147,12 @@ pub fn run_scenario(sc: &Value) -> Vec<Value> {
     let rel = release.clone();
     let stop_gap = sc["stop_gap_ms"].as_u64().unwrap_or(0);
     let busy_ms = sc["busy_ms"].as_u64().unwrap_or(0);
+    // "call_busy": {"c": k, "ms": N}: Service::call for connection k blocks the worker thread for N ms INSIDE the worker's own
+    // poll (the stop is issued "stop_in_call_ms" after that client connected: the worker hears about it in mid-poll)
+    let call_busy = Arc::new(std::sync::atomic::AtomicU64::new(0));
+    let call_busy2 = call_busy.clone();
+    let call_busy_c = sc["call_busy"]["c"].as_u64().map(|c| c as usize);
+    let call_busy_ms = sc["call_busy"]["ms"].as_u64().unwrap_or(0);
     let poison = Arc::new(AtomicBool::new(false));
     let poison2 = poison.clone();
     let stall_ms = sc["stall_after_stop_ms"].as_u64().unwrap_or(0);
@@ -177,11 +184,17 @@ pub fn run_scenario(sc: &Value) -> Vec<Value> {
                     let rel = rel.clone();
                     let poison = poison2.clone();
                     let stop_flag = stop_flag2.clone();
+                    let call_busy = call_busy2.clone();
                     l3.emit(json!({"e": "FactoryNew"}));
                     fn_service(move |mut stream: TcpStream| {
                         let l4 = l3.clone();
                         let rel = rel.clone();
                         let stop_flag = stop_flag.clone();
+                        let hold = call_busy.swap(0, Ordering::SeqCst);
+                        if hold > 0 {
+                            l3.emit(json!({"e": "CallBlocks", "ms": hold}));
+                            thread::sleep(Duration::from_millis(hold));
+                        }
                         if poison.swap(false, Ordering::SeqCst) {
                             // panics inside `Service::call`: the worker future (and its thread) dies
                             l4.emit(json!({"e": "Poisoned"}));
@@ -274,12 +287,21 @@ pub fn run_scenario(sc: &Value) -> Vec<Value> {
     // clients
     let mut clients = vec![];
     for c in 0..nconn {
+        if Some(c) == call_busy_c {
+            // everybody before it is being served; its own call will block the worker inside its poll
+            wait_until(Duration::from_secs(5), || (0..c).all(|k| log.has(|v| v["e"] == "ConnStarted" && v["c"] == json!(k))));
+            call_busy.store(call_busy_ms, Ordering::SeqCst);
+        }
         let mut s = StdTcpStream::connect(addr).expect("connect");
         s.write_all(&[c as u8]).unwrap();
         clients.push(s);
     }
+    if call_busy_c.is_some() {
+        wait_until(Duration::from_secs(3), || log.has(|v| v["e"] == "CallBlocks"));
+        thread::sleep(Duration::from_millis(sc["stop_in_call_ms"].as_u64().unwrap_or(100)));
+    }
     let all_started = wait_until(Duration::from_secs(5), || {
-        (0..nconn).all(|c| log.has(|v| v["e"] == "ConnStarted" && v["c"] == json!(c)))
+        (0..nconn).all(|c| Some(c) == call_busy_c || log.has(|v| v["e"] == "ConnStarted" && v["c"] == json!(c)))
     });
     log.emit(json!({"e": "AllStarted", "ok": all_started}));
 
